@@ -39,7 +39,7 @@ Fixpoint wncount_loop (fuel : nat) (counts : list Z) (remaining threshold nbBits
   match fuel with
   | O => None
   | S f =>
-    if remaining <=? 1 then Some (rev' acc)
+    if remaining <=? 1 then (match counts with [] => Some (rev' acc) | _ => None end)   (* every count must have been written *)
     else
       let '(zbits, counts1) :=
         if prev0 then let '(n0, r) := zero_run counts in (repeat_codes 100 n0, r) else ([], counts) in
